@@ -365,6 +365,9 @@ func (r *RunResult) Finish() int {
 			pr[1]++
 		}
 		perRule[o.Rule] = pr
+		if os.Getenv("VERIF_VERBOSE") != "" {
+			fmt.Printf("obligation %s %s ok=%v @%s\n", o.Rule, o.Key, o.OK, o.Pos)
+		}
 		if o.Nontrivial {
 			dk := o.Rule + "\x00" + o.Key
 			if !distinct[dk] {
